@@ -428,6 +428,8 @@ class Interp:
             return "<str>"
         if isinstance(o, list) and attr in ("append", "extend", "copy", "insert", "pop"):
             return _ListMeth(o, attr)
+        if isinstance(o, Stub) and attr == "__call__":
+            return o  # the bound call of a callable stand-in is the stand-in
         raise InterpUnsupported(f"{fi.qualname}: attribute `{attr}` on {o!r}")
 
     def call(self, e: ast.Call, env, fi):
@@ -453,6 +455,8 @@ class Interp:
                     if ln:
                         return self.call_function(ln, [v], {})
                 raise PyRaise("TypeError", "len()")
+            if f.id == "id" and len(args) == 1 and not kwargs:
+                return id(args[0])  # identity of the model object stands for the identity of the object it models
             if f.id == "cast" and len(args) == 2:
                 return args[1]
             if f.id == "iter":
